@@ -73,12 +73,37 @@ class Schema:
         self.name, self.fn, self.arity = name, fn, arity
 
 
+def extend_pool(pool, derivers, rounds=1):
+    """index terms derived from pool terms (e.g. the row containing a flat position): one round by default"""
+    if not derivers:
+        return list(pool)
+    out = list(pool)
+    seen = {t.get_id() for t in out}
+    frontier = list(pool)
+    for _ in range(rounds):
+        new = []
+        for d in derivers:
+            for p in frontier:
+                try:
+                    ts = d(p)
+                except Exception:
+                    continue
+                for t in ts or ():
+                    t = z3.simplify(as_int_term(t))
+                    if t.get_id() not in seen:
+                        seen.add(t.get_id())
+                        out.append(t)
+                        new.append(t)
+        frontier = new
+    return out
+
+
 class Obligation:
-    def __init__(self, name, hyps, schemas, pool, goal, kind="post", info=None):
+    def __init__(self, name, hyps, schemas, pool, goal, kind="post", info=None, derivers=()):
         self.name = name
         self.hyps = list(hyps)
         self.schemas = list(schemas)
-        self.pool = list(pool)
+        self.pool = extend_pool(pool, derivers)
         self.goal = goal
         self.kind = kind
         self.info = info or {}
@@ -101,6 +126,7 @@ class Ctx:
         self.branch_timeout_ms = branch_timeout_ms
         self.max_decisions = max_decisions
         self.notes = []
+        self.derivers = []
         self.goal_guards = []
         self.heap_writes = []          # (buffer, description) for frame conditions
         self.allocs = 0
@@ -142,7 +168,7 @@ class Ctx:
         s.set("timeout", self.branch_timeout_ms)
         for h in self.hyps:
             s.add(h)
-        for h in instantiate(self.schemas, self.pool):
+        for h in instantiate(self.schemas, extend_pool(self.pool, self.derivers)):
             s.add(h)
         s.add(extra)
         t0 = time.time()
@@ -236,7 +262,7 @@ class Ctx:
         goal = as_bool_term(goal)
         for e in extra_pool:
             self.add_index(e)
-        ob = Obligation(name, self.hyps, self.schemas, self.pool, goal, kind, info)
+        ob = Obligation(name, self.hyps, self.schemas, self.pool, goal, kind, info, derivers=self.derivers)
         ob.guards = list(self.goal_guards)
         self.obligations.append(ob)
         return ob
@@ -343,7 +369,7 @@ def discharge(ob, timeout_ms=10000, use_native=True):
 
     def attempt(native):
         s = z3.Solver()
-        s.set("timeout", timeout_ms)
+        s.set("timeout", timeout_ms if not native else max(2000, timeout_ms // 3))
         for h in ob.hyps:
             s.add(h)
         for h in inst:
